@@ -247,6 +247,14 @@ def _solve(B, cost, lo, hi, z):
     if B.rows_eq:
         kw.update(A_eq=B.mat(B.rows_eq), b_eq=np.array(B.b_eq, float))
     res = linprog(cost, bounds=np.column_stack([lo, hi]), method="highs", **kw)
+    if res.status not in (0, 2) and not infeasible_bounds:
+        # iteration limit / numerical difficulties: the reference has not decided anything yet; try the other HiGHS algorithms
+        for method in ("highs-ipm", "highs-ds"):
+            res = linprog(cost, bounds=np.column_stack([lo, hi]), method=method, **kw)
+            if res.status in (0, 2):
+                break
     if res.status != 0 or infeasible_bounds:
-        return None, ("infeasible-bounds" if infeasible_bounds else "status-%d" % res.status), None, B
+        # status 2 = proven infeasible; 1 / 3 / 4 = the reference solver gave up ("undecided-...")
+        st_ = "infeasible-bounds" if infeasible_bounds else ("infeasible" if res.status == 2 else "undecided-status-%d" % res.status)
+        return None, st_, None, B
     return float(-res.fun), "optimal", res.x, B
